@@ -657,6 +657,9 @@ impl Engine for C16 {
     fn features(&self, case: &str) -> Vec<String> {
         C16::features_of(case)
     }
+    fn schedule_dependent_failures_count(&self) -> bool {
+        true
+    }
     fn run(&self, case: &str, ctx: &Ctx) -> CaseResult {
         // own thread: the caller may itself be a rayon worker (mc --classes); a plain thread blocks in
         // install() instead of stealing other cases onto this stack
